@@ -16,6 +16,11 @@ CLAIMED = {
             'on every abstract path for all 256 first bytes (both readers and helpers), array end guards agree with IsEnd(). Hangs, arithmetic '
             'UB and the CSV scanner are not decided.',
             'may-throw closure + call-graph SCCs + taint-to-sink flow + guard domination by abstract interpretation over the first-byte domain', '§5 C02'),
+    'C04': ('other',
+            'Value-flow of arithmetic stores by clang cast kinds and types in every instantiated value loader (no narrowing / sign-changing / '
+            'int-float cast reaches a load target), handler discipline of ConvertByPolicy and of the three other policy mappers, success-flag '
+            'discipline and exception-type discipline of the checked conversions. The arithmetic of the range test itself is not decided.',
+            'cast-kind classification of stores (type-checked AST per instantiation) + handler/exception discipline rules', '§5 C04'),
     'C05': ('other',
             'Path-complete accounting on the clang CFG: in the MsgPack array/binary read scopes every normal path consumes exactly as many '
             'elements as it counts; DOM array scopes advance once per request; mismatch protocol tables for all 256 first bytes in both '
